@@ -347,6 +347,8 @@ def dtype_of(t):
         return "float"
     if t[0] == "attr" and t[2] == "T":
         return dtype_of(t[1])
+    if t[0] == "unop" and t[1] in ("neg", "pos"):
+        return dtype_of(t[2])
     if t[0] in ("mut", "store"):
         return dtype_of(t[1])          # in-place updates keep the dtype of the array they write
     if t[0] == "binop" and t[1] in ("*", "+", "-", "/"):
